@@ -103,6 +103,7 @@ type WObs struct {
 	Panic      string
 	CallsAfter int // destination calls made after the first failure had been reported to the caller
 	Ctor       string
+	Recorded   bool // the match-finder recorder was attached
 	// index of the operation in progress when the destination first returned an error, -1 = never
 	FailedDuringOp int
 	curOp          int
@@ -266,6 +267,15 @@ func RunW(s Setting, std bool, datas [][]byte, ops []Op, failAt int) (obs *WObs)
 
 // RunWOpt: once = the destination fails at call failAt only (a transient failure).
 func RunWOpt(s Setting, std bool, datas [][]byte, ops []Op, failAt int, once bool) (obs *WObs) {
+	return runWRec(s, std, datas, ops, failAt, once, nil)
+}
+
+// RunWRec also records every match-finder call (verif hook) into calls.
+func RunWRec(s Setting, datas [][]byte, ops []Op, calls *[]GenCall) (obs *WObs) {
+	return runWRec(s, false, datas, ops, 0, false, calls)
+}
+
+func runWRec(s Setting, std bool, datas [][]byte, ops []Op, failAt int, once bool, recordCalls *[]GenCall) (obs *WObs) {
 	obs = &WObs{Dests: [][][]byte{nil}, FailedDuringOp: -1}
 	fa := failAt
 	mk := func() io.Writer {
@@ -280,6 +290,9 @@ func RunWOpt(s Setting, std bool, datas [][]byte, ops []Op, failAt int, once boo
 	if err != nil {
 		obs.Ctor = err.Error()
 		return obs
+	}
+	if recordCalls != nil && !std {
+		obs.Recorded = attachRecorder(w, recordCalls)
 	}
 	cur := make([]int, len(datas))
 	for oi, op := range ops {
